@@ -112,6 +112,7 @@ func main() {
 		fmt.Printf("ERROR load failed: %v\n", err)
 		os.Exit(2)
 	}
+	rc = runContext{repo: *repo, arch: *arch, verif: *verif, orig: pr}
 	if *writeHelpers {
 		var ks []string
 		for _, f := range pr.Funcs {
@@ -234,21 +235,15 @@ func decideOnVariants(pr *Prog, l *Ledger, open []*Obligation, id string, rs *ru
 		// (A second variant with every helper inlined was tried and withdrawn: rules that hang an obligation on the call
 		// of a helper they know by role lose that obligation when the helper is inlined, so a real defect - mutant
 		// c11-peek-evicts-neighbour - passed on it.)
-		pv, err := loadProg(repo, arch)
-		if err != nil {
-			return nil
-		}
-		inl, rem, err := pv.InlineHelpers(v.keep)
-		if err != nil {
-			l.Note("variant %s could not be built: %v", v.name, err)
+		pv, inl, rem := variantFor(v.keep)
+		if pv == nil {
 			continue
 		}
 		sig := strings.Join(inl, ";")
-		if len(inl) == 0 || sig == prevInlined {
+		if sig == prevInlined {
 			continue
 		}
 		prevInlined = sig
-		pv.Variant = v.name
 		lv := runRules(pv, id, rs, tier, "", t0)
 		if len(lv.infraErrs) > 0 || len(lv.Unlisted(verif, rs.floors)) > 0 {
 			// the as-written report stands; where it could only say "shape not recognised" and the variant names the
@@ -301,15 +296,13 @@ func thorough(pr *Prog, id string, rs *ruleSet, l *Ledger, repo, verif string, p
 	if err != nil {
 		l.Fatal("thorough: GOARCH=386 load failed: %v", err)
 	} else {
-		l2 := NewLedger(id, "thorough")
-		func() {
-			defer func() {
-				if r := recover(); r != nil {
-					l.Fatal("checker panic on the 386 load: %v", r)
-				}
-			}()
-			rs.run(p2, l2)
-		}()
+		saved := rc
+		rc = runContext{repo: repo, arch: "386", verif: verif, orig: p2}
+		l2 := runSub(p2, id, rs, "thorough")
+		for _, e := range l2.infraErrs {
+			l.Fatal("on the 386 load: %s", e)
+		}
+		rc = saved
 		diff := 0
 		for _, o2 := range l2.Obls {
 			o1 := l.byKey[o2.Key]
@@ -365,6 +358,74 @@ func treeIsValidated(repo, verif string) bool {
 // importObligations runs another property's rules on the same program and copies the obligations selected by keep
 // into l under rule id `as` (the imported property's clauses are prerequisites of l's property; they are decided by
 // the same code as in their own check).
+// rc: what a run needs to re-load the program (variants are built from a fresh load) and the program as written that is
+// being decided. Imports are decided on rc.orig with their own fallback, whatever program the importer is looking at.
+type runContext struct {
+	repo, arch, verif string
+	orig              *Prog
+	variants          map[string]*Prog
+	order             []string
+}
+
+var rc runContext
+
+// variantFor returns (building it on first use) the equivalent program in which the helpers not in keep are inlined;
+// nil when nothing would be inlined or the variant cannot be built.
+func variantFor(keep map[string]bool) (*Prog, []string, []string) {
+	var ks []string
+	for k := range keep {
+		ks = append(ks, k)
+	}
+	sort.Strings(ks)
+	sig := strings.Join(ks, ";")
+	if rc.variants == nil {
+		rc.variants = map[string]*Prog{}
+	}
+	if pv, ok := rc.variants[sig]; ok {
+		if pv == nil {
+			return nil, nil, nil
+		}
+		return pv, pv.inlinedSites, pv.removedHelpers
+	}
+	pv, err := loadProg(rc.repo, rc.arch)
+	if err != nil {
+		rc.variants[sig] = nil
+		return nil, nil, nil
+	}
+	inl, rem, err := pv.InlineHelpers(keep)
+	if err != nil || len(inl) == 0 {
+		rc.variants[sig] = nil
+		return nil, nil, nil
+	}
+	pv.Variant = "unclaimed-helpers-inlined"
+	pv.inlinedSites, pv.removedHelpers = inl, rem
+	rc.variants[sig] = pv
+	rc.order = append(rc.order, sig)
+	if len(rc.order) > 3 {
+		delete(rc.variants, rc.order[0])
+		rc.order = rc.order[1:]
+	}
+	return pv, inl, rem
+}
+
+// runSub runs the rules of one property on a program into a fresh ledger, keeping the per-program globals consistent.
+func runSub(pr *Prog, id string, rs *ruleSet, tier string) *Ledger {
+	sub := NewLedger(id, tier)
+	savedProg, savedCache := curProg, canonCache
+	curProg = pr
+	canonCache = map[ssa.Value]canonCond{}
+	func() {
+		defer func() {
+			if r := recover(); r != nil {
+				sub.Fatal("checker panic: %v\n%s", r, debug.Stack())
+			}
+		}()
+		rs.run(pr, sub)
+	}()
+	curProg, canonCache = savedProg, savedCache
+	return sub
+}
+
 // activeRules: the properties whose rules are running (the one being decided and the chain of imports), so that two
 // properties can import each other's obligations without recursing.
 var activeRules = map[string]bool{}
@@ -379,9 +440,36 @@ func importObligations(p *Prog, l *Ledger, from, as string, keep func(o *Obligat
 		return 0 // the importing chain started there: its obligations are already on the report
 	}
 	activeRules[from] = true
-	sub := NewLedger(from, l.Tier)
-	rs.run(p, sub)
-	delete(activeRules, from)
+	defer delete(activeRules, from)
+	// the imported property is decided the way its own check decides it: on the program as written, and when that leaves
+	// something open, on the equivalent variant - independently of which program the importing rules are looking at
+	orig := rc.orig
+	if orig == nil {
+		orig = p
+	}
+	sub := runSub(orig, from, rs, l.Tier)
+	if orig.Variant == "" && rc.repo != "" && len(sub.infraErrs) == 0 {
+		if open := sub.Unlisted(rc.verif, rs.floors); len(open) > 0 {
+			keepSet := loadHelperBaseline(rc.verif)
+			for k := range sub.claimed {
+				keepSet[k] = true
+			}
+			if pv, _, _ := variantFor(keepSet); pv != nil {
+				sv := runSub(pv, from, rs, l.Tier)
+				if len(sv.infraErrs) == 0 && len(sv.Unlisted(rc.verif, rs.floors)) == 0 {
+					l.Note("the obligations imported from %s were decided on the equivalent program variant (helpers not in helpers_baseline.txt inlined): %d were open on the program as written", from, len(open))
+					sub = sv
+				} else {
+					for _, o := range sub.Obls {
+						if ov := sv.byKey[o.Key]; o.Verdict == Undecided && ov != nil && ov.Verdict == Violated {
+							o.Verdict, o.Witness = Violated, ov.Witness
+							o.Detail = ov.Detail + " (found on the equivalent program with the new helpers inlined; as written: " + o.Detail + ")"
+						}
+					}
+				}
+			}
+		}
+	}
 	n := 0
 	for _, o := range sub.Obls {
 		if keep != nil && !keep(o) {
